@@ -46,6 +46,7 @@ def install_rdms(E):
     E.method_ret[(None, 'predict_rdm')] = 'RDMs'
     E.func_ret['rsatoolbox.util.inference_util.pool_rdm'] = 'RDMs'
     E.func_ret['rsatoolbox.util.pooling.pool_rdm'] = 'RDMs'
+    E.func_ret['rsatoolbox.rdm.calc.calc_rdm'] = 'RDMs'
 
 
 INLINE = {
